@@ -15,6 +15,14 @@ fn main() {
         }
         return;
     }
+    // rtprops --abi-probe <name>: one ABI probe (see abi.rs); --abi-probe list prints the names
+    if a.get(1).map(|s| s == "--abi-probe").unwrap_or(false) {
+        if a.get(2).map(|s| s == "list").unwrap_or(true) {
+            println!("{}", rtprops::abi::PROBES.join("\n"));
+            return;
+        }
+        rtprops::abi::run(&a[2]);
+    }
     verifkit::quiet_panics();
     let ctx = Ctx::new(Args::parse());
     std::process::exit(rtprops::run_property(&ctx));
